@@ -77,6 +77,15 @@ CHECKS = {
         ],
         "assumptions": ["hull containment tolerance 2e-7*scale (quickhull's own epsilon is 1e-7*scale); point sets that are neither exactly degenerate nor span a tetrahedron > 1e-6*scale^3 are unclassified and counted"],
     },
+    "C19": {
+        "subs": [
+            {"name": "refine", "bin": "c19_refine", "variant": "asan",
+             "quick": {"n": 2400, "size": 100}, "thorough": {"n": 200000, "size": 150}},
+            {"name": "partitions", "bin": "c19_refine", "variant": "asan", "mode": "exhaustive",
+             "quick": {"level": 0}, "thorough": {"level": 1}},
+        ],
+        "assumptions": ["Partition is reached by including src/subdivision.cpp in the harness TU", "simplification is judged on piecewise-planar solids with tolerances below the feature size, as the statement says"],
+    },
 }
 
 PBT = "property-based testing (rapidcheck byte-tape generators, shrinking, replay files)"
@@ -102,4 +111,6 @@ MANIFEST_TEXT["C17"] = {"text": "analytic membership of every constructor (with 
                         "note": "sampled points, 60% of them concentrated just off the surface", "technique": PBT + " against analytic reference models and metamorphic transform relations"}
 MANIFEST_TEXT["C16"] = {"text": "Hull judged by vertex-subset, containment and closed-manifold predicates with exact integer rank deciding degeneracy; Minkowski sum/difference judged point-wise by the dilation/erosion definitions with an independent winding number",
                         "note": "sampled points; small structuring solids (<=40 triangles)", "technique": PBT + " with validity predicates and a set-theoretic reference"}
+MANIFEST_TEXT["C19"] = {"text": "Refine*/Simplify/SetTolerance judged by metamorphic invariants (volume, area, vertex retention, on-surface, n*n count, Refine(n) subset of Refine(2n)) and the closed-manifold predicate; every subdivision pattern up to a bound enumerated and checked to tile its triangle/quad",
+                        "note": "patterns exhaustive up to triples<=12 / quadruples<=6 (thorough 24 / 10); meshes sampled", "technique": PBT + " with metamorphic relations, plus exhaustive enumeration of subdivision patterns"}
 NOT_CLAIMED = {}
